@@ -51,6 +51,13 @@ def shape_problems(t, s, root, where, out, pairs, depth=0):
             pairs.extend(p2)
         if not any(not o for o, _ in trial):
             out.append(("shape",) + where)
+        # a data type that the annotation names next to a plain Dict / List (the OCPP 1.6 classes do that) must fit the
+        # position by itself: its own problems are reported even though the Dict alternative has none
+        for a, (o2, _) in zip(typing.get_args(t), trial):
+            b = strip_optional(a)
+            inner = typing.get_args(b)[0] if typing.get_origin(b) in (list, typing.List) and typing.get_args(b) else b
+            if isinstance(inner, type) and dataclasses.is_dataclass(inner) and any(not o for o, _ in trial):
+                out.extend(x for x in o2 if x not in out)
         return
     if origin in (list, typing.List) or t in (list, typing.List):
         if ty not in (None, "array"):
